@@ -275,6 +275,64 @@ func c12GenField(r *Rand) string {
 	return fmt.Sprintf("field %s %s %s", icS, HexS(p.render()), Hex(c12GenLine(r, p, ic)))
 }
 
+// dissect on periodic material: literals that are short periodic words (`aab`, `abab`, `-->`), now
+// and then longer than 63 bytes (the Rabin-Karp arm of the real strings.Index), and lines that are
+// long periodic runs containing the literals at late offsets after many partial matches
+func c12GenPeriodicDissect(r *Rand) string {
+	word := func() string {
+		w := c12Periodic(r, 1+r.Intn(4))
+		if r.Chance(1, 12) {
+			w = c12Periodic(r, 64+r.Intn(8))
+		}
+		s := strings.ReplaceAll(string(w), "%{", "%")
+		if s == "" {
+			s = "a"
+		}
+		return s
+	}
+	var p c12Pat
+	if r.Chance(2, 3) {
+		p.pre = word()
+	}
+	nt := 1 + r.Intn(3)
+	for i := 0; i < nt; i++ {
+		p.keys = append(p.keys, Pick(r, []string{"x" + strconv.Itoa(i), "", "?s"}))
+		lit := word()
+		if i == nt-1 && r.Bool() {
+			lit = ""
+		}
+		p.lits = append(p.lits, lit)
+	}
+	ic := r.Bool()
+	nl := 1 + r.Intn(4)
+	var lines [][]byte
+	for j := 0; j < nl; j++ {
+		var sb bytes.Buffer
+		sb.Write(c12Periodic(r, Pick(r, []int{0, 1, 3, 9, 40, 70, 130})))
+		sb.WriteString(p.pre)
+		for i := range p.lits {
+			sb.Write(c12Periodic(r, Pick(r, []int{0, 1, 2, 5, 17, 66})))
+			if !r.Chance(1, 10) {
+				sb.WriteString(p.lits[i])
+			}
+		}
+		sb.Write(c12Periodic(r, r.Intn(4)))
+		l := sb.Bytes()
+		if ic {
+			l = []byte(c12FlipCase(r, string(l)))
+		}
+		lines = append(lines, l)
+	}
+	icS := "0"
+	if ic {
+		icS = "1"
+	}
+	if r.Bool() {
+		return fmt.Sprintf("specp %s %s %s %s %s 1", icS, HexS(p.pre), HexListS(p.keys), HexListS(p.lits), HexList(lines))
+	}
+	return fmt.Sprintf("dissect %s %s %s 1", icS, HexS(p.render()), HexList(lines))
+}
+
 func c12GenExt(r *Rand, tier string) []string {
 	n := 1500
 	if tier == "thorough" {
@@ -286,6 +344,9 @@ func c12GenExt(r *Rand, tier string) []string {
 	}
 	for i := 0; i < n/3; i++ {
 		out = append(out, c12GenPool(r))
+	}
+	for i := 0; i < n/3; i++ {
+		out = append(out, c12GenPeriodicDissect(r))
 	}
 	for i := 0; i < n/2; i++ {
 		out = append(out, c12GenField(r))
